@@ -504,6 +504,23 @@ Section CheckProofs.
     map (fun eb => se_path (fst eb)) (scan_tree patterns None children) =
     map fst (check_arg patterns children []).
   Proof. rewrite <- C12_scanned_is_checked, map_map. reflexivity. Qed.
+
+  (* conversely: whatever check lists, for any argument, scan analyses too with the same
+     result, provided no component of the path is hidden (scan prunes from the root) *)
+  Theorem C12_checked_is_scanned patterns children arg comps rs :
+    In (comps, rs) (check_arg patterns children arg) ->
+    Forall (fun n => is_hidden n = false) comps ->
+    exists e, In (e, true) (scan_tree patterns None children) /\ se_path e = comps /\ rs = risks (se_result e).
+  Proof.
+    intros H Hh. apply check_arg_sound in H.
+    destruct H as [content [lang [Hf [Ex [El [-> _]]]]]].
+    assert (Hs : supported (last comps []) <> None) by congruence.
+    destruct (C11_complete supported analyze patterns None children comps content Hf Hh Ex Hs)
+      as [e [b [Hin [Ep Ec]]]].
+    pose proof (C11_sound supported analyze _ _ _ _ _ Hin) as [_ [_ [_ [lang' [El' [Hr Hb]]]]]].
+    specialize (Hb eq_refl). subst b. exists e. split; [exact Hin|]. split; [exact Ep|].
+    rewrite (Hr eq_refl), Ec. rewrite Ep, El in El'. inversion El'. reflexivity.
+  Qed.
 End CheckProofs.
 
 (* ---------- 7. exit status ---------- *)
